@@ -7,13 +7,16 @@ Correspondence:
   (b) end to end: programs calling extern functions run with `nano_vm x.nvm` and `nano_vm --isolate-ffi x.nvm`
       (freshly built nano_cop first on PATH): stdout, stderr and exit status must be equal; where the model predicts that the
       request / reply does not fit its fixed buffer the difference is the known finding."""
-import os, json, shutil, struct, glob
+import os, sys, json, shutil, struct, glob
+sys.setrecursionlimit(20000)      # values nested a few hundred levels deep are built, printed and encoded recursively
 import vlib
 
 ASAN_MAX_MB = 64                      # ASan allocator refuses larger requests and returns NULL
 ASAN_AMAX = ASAN_MAX_MB * (1 << 20) // 16   # = largest element count calloc(count, 16) grants under those options
-K_REQ = 'c15:vm_ffi_call_cop:request-exceeds-REQ_BUF_SIZE'
-K_REPLY = 'c15:handle_ffi_req:result-exceeds-COP_REPLY_BIG_BUF'
+K_REQ = 'c15:vm_ffi_call_cop:request-exceeds-REQ_BUF_SIZE'          # fixed by 425e74f: reported again if a fixed buffer comes back
+K_REPLY = 'c15:handle_ffi_req:result-exceeds-COP_REPLY_BIG_BUF'     # fixed by 5703ef2
+K_REQ_MAX = 'c15:protocol-limit:request-exceeds-COP_MAX_PAYLOAD'    # what remains: the 16 MiB bound of one message
+K_REPLY_MAX = 'c15:protocol-limit:result-exceeds-COP_MAX_PAYLOAD'
 K_STDOUT = 'c15:e2e:extern-writes-stdout'
 
 
@@ -43,7 +46,12 @@ def show(v):
     if k == 'v': return 'v'
     if k in 'ifot': return '%s%x' % (k, v[1])
     if k == 'b': return 'b%d' % v[1]
-    if k == 's': return 's' + (v[1].hex() or '-')
+    if k == 's':
+        if len(v[1]) > 200000 and v[1] == b'x' * len(v[1]):
+            return 'S%d' % len(v[1])
+        return 's' + (v[1].hex() or '-')
+    if k == 'R': return 'R%dx%d' % (v[1], v[2])
+    if k == 'I': return 'I%d' % v[1]
     if k == 'a': return 'a%x[%s]' % (v[1], ','.join(show(e) for e in v[2]))
     raise ValueError(v)
 
@@ -64,7 +72,10 @@ def py_ser(v, tags):
 def read_consts():
     import re
     t = open(os.path.join(vlib.COQ, 'NV', 'gen', 'CopConst.v')).read()
-    return {m.group(1): int(m.group(2)) for m in re.finditer(r'Definition (\w+) : N := (\d+)\.', t)}
+    d = {m.group(1): int(m.group(2)) for m in re.finditer(r'Definition (\w+) : N := (\d+)\.', t)}
+    for m in re.finditer(r'Definition (\w+) : list N := \[([^\]]*)\]\.', t):
+        d[m.group(1)] = [int(x) for x in m.group(2).split(';') if x.strip()]
+    return d
 
 
 I64 = [0, 1, 2, 0x7f, 0x80, 0xff, 0x100, 0xffff, 0x7fffffff, 0x80000000, 0xffffffff, 0x100000000, 0x7fffffffffffffff,
@@ -121,6 +132,11 @@ def boundary_values(ck, C):
     for d in range(40 if ck.thorough else 12):
         deep = ('a', 7, [deep, ('i', d)])
     vs.append(deep)
+    for d in (C['COP_MAX_NESTING'] - 2, C['COP_MAX_NESTING'] - 1, C['COP_MAX_NESTING'], C['COP_MAX_NESTING'] + 1, 3 * C['COP_MAX_NESTING']):
+        nv = ('a', 1, [])
+        for _ in range(d):
+            nv = ('a', 1, [nv])
+        vs.append(nv)                                    # d + 1 array levels: the decoder accepts COP_MAX_NESTING
     vs.append(('a', 1, [('i', i) for i in range(1000)]))
     vs.append(('a', 5, [('s', b'y' * 700) for _ in range(12)]))          # 12 * 705 + 6 > 8192
     for t in [2, 6, 8, 9, 10, 11, 12, 13, 15, 200]:
@@ -161,6 +177,8 @@ def hostile_fixed(C):
         for tail in [b'', bytes([V]), bytes([V, V]), bytes([I, 1]), bytes([S, 1, 0, 0, 0, 65]), bytes([S, 0xff, 0xff, 0xff, 0xff])]:
             out.append(bytes([A, 1]) + struct.pack('<I', c) + tail)
     out.append(bytes([A, 1]) + struct.pack('<I', 2) + bytes([A, 1]) + struct.pack('<I', 0xffffffff) + bytes([V]))
+    for depth in (255, 256, 257, 1000, 100000):
+        out.append((bytes([A, 1]) + struct.pack('<I', 1)) * depth + bytes([V]))
     return out
 
 
@@ -260,20 +278,24 @@ def run_codec(ck, ref, probe_asan, probe_plain, C):
                 ck.fail('c15:codec-plain:' + l[:300], 'cop codec (plain build) differs from the model: impl=%s model=%s' % (a[:200], m1[:200]),
                         dict(case='codec', engine='cop_probe(plain)', input=l, expected_model=m1[:2000], observed_impl=a[:2000],
                              correspondence='cop_probe vs nvref_c15'))
-    # property-level check on the implementation's own answers, independent of the model: rt v gives back v
-    for l, a in zip(lines, impl):
-        if l.startswith('rt '):
-            want = l[3:]
-            got = a.split(' ', 2)
-            tr = True
-            if not (len(got) == 3 and got[0] == 'ok' and got[2] == want) and 't' not in want:
-                ck.fail('c15:roundtrip:' + l[:300], 'deserialize(serialize(v)) != v on the implementation: %s' % a[:300],
-                        dict(case='codec', input=l, observed_impl=a[:2000], engine='cop_probe(asan)'))
+    # property-level check on the implementation's own answers: rt v gives back v for every transferable v
+    # (whether v is transferable -- well-formed, nesting <= COP_MAX_NESTING -- is the model's predicate transferableb)
+    rts = [(l, a) for l, a in zip(lines, impl) if l.startswith('rt ')]
+    trs = run_model(ref, ['tr ' + l[3:] for l, _ in rts], timeout=600)
+    ntr = 0
+    for (l, a), tr in zip(rts, trs):
+        want = l[3:]
+        got = a.split(' ', 2)
+        back = len(got) == 3 and got[0] == 'ok' and got[2] == want
+        ntr += tr == '1'
+        if tr == '1' and not back:
+            ck.fail('c15:roundtrip:' + l[:300], 'deserialize(serialize(v)) != v on the implementation: %s' % a[:300],
+                    dict(case='codec', input=l, observed_impl=a[:2000], engine='cop_probe(asan)'))
     k = next((i for i, l in enumerate(lines) if l.startswith('rt a7[')), 0)
     ck.sample(dict(q=lines[k][:200], impl=impl[k][:200] if k < len(impl) else None, model=model_asan[k][:200]))
     k = next((i for i, l in enumerate(lines) if l.startswith('desx') and model_asan[i] == 'oob'), 0)
     ck.sample(dict(q=lines[k][:200], impl=impl[k][:200] if k < len(impl) else None, model=model_asan[k][:200]))
-    ck.extra['codec_lines'] = dict(safe=len(safe), hostile=len(hostile), corpus=len(corpus), value_kinds=dist,
+    ck.extra['codec_lines'] = dict(safe=len(safe), hostile=len(hostile), corpus=len(corpus), value_kinds=dist, roundtrip_transferable=ntr,
                                    model_oob=oob, allocator_dependent=alloc_dep,
                                    model_ok=sum(m.startswith('ok') for m in model_asan), model_err=sum(m == 'err' for m in model_asan))
     return bad
@@ -329,7 +351,7 @@ fn main() -> int {
     return 0
 }
 ''' % (n, n - 1)
-    return ('bigreply_%d' % n, src, [], ('a', 1, n))
+    return ('bigreply_%d' % n, src, [], ('I', n))
 
 
 PROG_STDOUT = ('extern_writes_stdout', '''extern fn puts(s: string) -> int
@@ -487,58 +509,110 @@ def run_prog(b, name, src):
     return dict(compiled=True, inproc=r1, cop=r2, path=p)
 
 
-def model_request(ref, argsets):
+def py_size(v):
+    """serialized size by arithmetic (used instead of the model only for the two 16 MiB programs of the quick tier, where
+    evaluating the extracted model on 16M-element lists costs minutes; the thorough tier asks the model)"""
+    k = v[0]
+    if k == 's': return 5 + len(v[1])
+    if k == 'R': return 6 + v[1] * (5 + v[2])
+    if k == 'I': return 6 + 9 * v[1]
+    raise ValueError(v)
+
+
+def model_request(ck, ref, argsets, C, huge):
     """per extern call of the program: does the model's vm_ffi_call_cop request fit?  -> list of 'ok'/'argfail i'"""
     if not argsets:
         return []
-    out = run_model(ref, ['req 0 ' + ' '.join(show(a) for a in args) for args in argsets], timeout=120)
-    return [o.split(' ')[0] + (' ' + o.split(' ')[1] if o.startswith('argfail') else '') for o in out]
+    if huge and not ck.thorough:
+        out = []
+        for args in argsets:
+            pos, res = 6, 'ok'
+            for i, a in enumerate(args):
+                if pos + py_size(a) > C['REQ_BUF_SIZE']:
+                    res = 'argfail %d' % i; break
+                pos += py_size(a)
+            out.append(res)
+        return out
+    out = run_model(ref, ['reqfit 0 ' + ' '.join(show(a) for a in args) for args in argsets], timeout=1200)
+    return [o.strip() for o in out]
 
 
-def model_reply_empty(ref, spec):
-    """does the model's handle_ffi_req send an empty payload for an int array of n elements?"""
+def model_reply_kind(ck, ref, spec, C, huge):
+    """what does the model's handle_ffi_req answer for this result value?  -> 'result' | 'error' | 'empty' (old code)"""
     if spec is None:
-        return False
-    v = ('a', spec[1], [('i', i) for i in range(spec[2])])
-    out = run_model(ref, ['reply ' + show(v)], timeout=300)
-    return out[0] == '-'
+        return 'result'
+    if huge and not ck.thorough:
+        return 'result' if py_size(spec) <= C['COP_REPLY_BIG_BUF'] else 'error'
+    out = run_model(ref, ['replykind ' + show(spec)], timeout=1200)
+    return out[0].strip()
 
 
 def check_prog(ck, b, ref, prog, C):
-    name, src, argsets, replyspec = prog
+    name, src, argsets, replyspec = prog[:4]
+    huge = len(prog) > 4 and prog[4]
     r = run_prog(b, name, src)
     if not r['compiled']:
         raise RuntimeError('e2e program %s does not compile with nano_virt: %s' % (name, r['err']))
     a, c = r['inproc'], r['cop']
     same = (a[0], a[1], a[2]) == (c[0], c[1], c[2])
-    reqs = model_request(ref, argsets)
+    reqs = model_request(ck, ref, argsets, C, huge)
     fits = all(x == 'ok' for x in reqs)
-    empty_reply = model_reply_empty(ref, replyspec)
+    rkind = model_reply_kind(ck, ref, replyspec, C, huge)
+    at_protocol_bound = C['REQ_BUF_SIZE'] >= C['COP_MAX_PAYLOAD'], C['COP_REPLY_BIG_BUF'] >= C['COP_MAX_PAYLOAD']
     ck.count(('e2e', src), nontrivial=a[0] == 0 and 'before' in a[1] and a[1].count('\n') >= 3)
     replay = dict(case='e2e', program=name, source=src, inproc=dict(rc=a[0], stdout=a[1][-600:], stderr=a[2][-600:]),
-                  cop=dict(rc=c[0], stdout=c[1][-600:], stderr=c[2][-600:]), model_request=reqs, model_reply_empty=empty_reply,
+                  cop=dict(rc=c[0], stdout=c[1][-600:], stderr=c[2][-600:]), model_request=reqs, model_reply=rkind,
                   engine='nano_vm vs nano_vm --isolate-ffi')
     if a[0] == -9 or c[0] == -9:
         ck.fail('c15:e2e:timeout:' + name, 'timeout running %s (inproc rc=%s, cop rc=%s)' % (name, a[0], c[0]), replay)
         return r
     if not fits:
-        # the model says the request does not fit the fixed buffer: the implementation must show exactly that failure
+        # the model says the request does not fit: the implementation must show exactly that failure
         i = next(x for x in reqs if x != 'ok').split(' ')[1]
         if same:
             ck.fail('c15:e2e-model:' + name, 'model predicts "failed to serialize arg %s" but both runs agree: model of the request buffer is wrong' % i, replay)
         elif ('COP: failed to serialize arg %s' % i) in c[2]:
-            ck.fail(K_REQ, 'extern call whose arguments need more than REQ_BUF_SIZE-6 bytes fails only under --isolate-ffi (%s)' % name, replay)
+            ck.fail(K_REQ_MAX if at_protocol_bound[0] else K_REQ,
+                    'extern call whose arguments need more than %d bytes fails only under --isolate-ffi (%s)' % (C['REQ_BUF_SIZE'] - 6, name), replay)
         else:
-            ck.fail('c15:e2e:' + name, 'in-process and co-process runs differ (not the predicted request-buffer failure)', replay)
-    elif empty_reply:
+            ck.fail('c15:e2e:' + name, 'in-process and co-process runs differ (not the predicted request failure)', replay)
+    elif rkind != 'result':
         if same:
-            ck.fail('c15:e2e-model:' + name, 'model predicts an empty reply payload (result arrives as void) but both runs agree', replay)
+            ck.fail('c15:e2e-model:' + name, 'model predicts that the result does not fit the reply buffer but both runs agree', replay)
+        elif rkind == 'error' and bytes(C['COP_REPLY_TOO_LARGE_MSG']).decode('latin-1') in c[2]:
+            ck.fail(K_REPLY_MAX if at_protocol_bound[1] else K_REPLY,
+                    'extern result larger than %d bytes is an FFI error under --isolate-ffi (%s)' % (C['COP_REPLY_BIG_BUF'], name), replay)
         else:
-            ck.fail(K_REPLY, 'extern result larger than COP_REPLY_BIG_BUF arrives as void under --isolate-ffi (%s)' % name, replay)
+            ck.fail(K_REPLY if not at_protocol_bound[1] else 'c15:e2e:' + name,
+                    'extern result larger than the reply buffer: runs differ, not by the predicted error text (%s)' % name, replay)
     elif not same:
         ck.fail(K_STDOUT if name == 'extern_writes_stdout' else 'c15:e2e:' + name,
                 'in-process and co-process runs differ: %s' % name, replay)
     return r
+
+
+def prog_bigstrings(count, slen):
+    src = '''extern fn dyn_array_new(t: int) -> opaque
+extern fn dyn_array_push_string_copy(a: opaque, s: string) -> opaque
+extern fn dyn_array_clone(a: opaque) -> array<string>
+extern fn dyn_array_length(a: opaque) -> int
+''' + MAKE + '''fn main() -> int {
+    (println "before")
+    let h: opaque = (dyn_array_new 3)
+    let s: string = (make %d)
+    let mut i: int = 0
+    while (< i %d) {
+        let h2: opaque = (dyn_array_push_string_copy h s)
+        set i (+ i 1)
+    }
+    (println (dyn_array_length h))
+    let r: array<string> = (dyn_array_clone h)
+    (println (array_length r))
+    (println "after")
+    return 0
+}
+''' % (slen, count)
+    return ('bigstrings_%dx%d' % (count, slen), src, [[('s', b'x' * slen)]], ('R', count, slen), True)
 
 
 def e2e_programs(ck, C):
@@ -556,6 +630,15 @@ def e2e_programs(ck, C):
         nmax = (big - 6) // 9                          # largest int array result that fits the reply buffer
         counts |= {nmax, nmax + 1}
     progs += [prog_bigreply(n) for n in sorted(counts)]
+    # the protocol bound itself (one message <= COP_MAX_PAYLOAD): last size that fits / first that does not
+    MAXP = C['COP_MAX_PAYLOAD']
+    if req >= MAXP:
+        for n in (MAXP - 11, MAXP - 10):
+            nm, src, argsets, rs = prog_strlen(n)
+            progs.append((nm, src, argsets, rs, True))
+    if big >= MAXP:
+        k = (MAXP - 6) // 8005
+        progs += [prog_bigstrings(k, 8000), prog_bigstrings(k + 1, 8000)]
     progs.append(PROG_STDOUT)
     for i in range(120 if ck.thorough else 30):
         progs.append(rand_program(ck.rng, i))
